@@ -203,6 +203,8 @@ def _denote(e, env, leaves):
         va = denote(a, env, leaves)
         vi = denote(idx, env, leaves)[()]
         return _select([_raw(va[j]) for j in range(va.shape[0])], vi)
+    if tag == "constant":
+        return denote(e[2], env, leaves)
     if tag == "getitem_at":
         _, a, idx, off = e
         va = denote(a, env, leaves)
